@@ -904,6 +904,8 @@ class Interp:
                     c1 = c1.set("$handling", c1.env.get("$exc"))
                     if h.name:
                         c1 = c1.set(h.name, c1.env.get("$exc"))
+                    if getattr(self.policy, "trace_handlers", False):
+                        c1 = c1.emit(("handler", h.lineno, getattr(exc, "origin", ""), getattr(exc, "cls", "")))
                     o = self.exec_block(h.body, [c1.unset("$exc")])
                     for kind in Out.KINDS:
                         for c2 in o.get(kind):
